@@ -299,7 +299,7 @@ func WithTimeout(parent context.Context, d time.Duration) (context.Context, cont
 	if !Active() {
 		return context.WithTimeout(parent, d)
 	}
-	return WithCancel(parent)
+	return withTimer(parent)
 }
 
 //go:norace
@@ -307,7 +307,42 @@ func WithDeadline(parent context.Context, d time.Time) (context.Context, context
 	if !Active() {
 		return context.WithDeadline(parent, d)
 	}
-	return WithCancel(parent)
+	return withTimer(parent)
+}
+
+// withTimer: a timeout context of the code under test. Its timer never
+// fires by itself; FireTimers fires every timer that is still armed.
+//
+//go:norace
+func withTimer(parent context.Context) (context.Context, context.CancelFunc) {
+	ctx, cancel := context.WithCancel(parent)
+	S.timers = append(S.timers, cancel)
+	return ctx, func() {
+		if Active() {
+			S.park(&Op{Kind: OpYield, PC: callerPC(1), Obj: CtxObj})
+		}
+		cancel()
+	}
+}
+
+// FireTimers lets the time of every timeout / deadline context created so
+// far by the code under test run out (at one scheduling point): whatever
+// still depends on such a context is cancelled now. Harness code calls it at
+// a moment when those timeouts should no longer matter (a handshake timeout
+// after the handshake).
+//
+//go:norace
+func FireTimers() int {
+	if !Active() {
+		return 0
+	}
+	S.park(&Op{Kind: OpYield, Site: "timers.fire", Obj: CtxObj})
+	n := len(S.timers)
+	for _, c := range S.timers {
+		c()
+	}
+	S.timers = nil
+	return n
 }
 
 // ---- maps ----
